@@ -597,8 +597,9 @@ Definition sched_matches (v : variant) (auto_app : bool) (evs : list (list event
      R1  a Submit whose select finds both its response and a closed context
          (its own or the connection's) ready may leave through either case;
      R2  a call that is about to hand its frame to the transport while another
-         caller's transport Write is still open may do so at once or later
-         (a write lock around Send is allowed);
+         caller's transport Write is still open, or while another caller is
+         about to do the same, may do so at once or later (a write lock around
+         Send is allowed, and it need not be fair);
      R3  Watch handing a PDU to a receiving application after Done() closed
          may complete the hand-over or give it up.
    [settle_nd] runs the internal events like [settle] but returns every
@@ -611,13 +612,18 @@ Definition racing (s : state) (c : nat) : bool :=
   | PWaiting, Some _ => done s || c_ctx (callers s c)
   | _, _ => false
   end.
-Definition write_open (s : state) (c : nat) : bool :=
-  existsb (fun d => negb (Nat.eqb d c) && match c_pc (callers s d) with PWriting => true | _ => false end) (started s).
+(* another caller's transport Write is open, or another caller is about to hand
+   its frame to the transport as well (which of two waiting senders goes first
+   is not decided by any property) *)
+Definition write_open (v : variant) (s : state) (c : nat) : bool :=
+  existsb (fun d => negb (Nat.eqb d c) &&
+                    match c_pc (callers s d) with PWriting | PStarted | PRegistered => true | _ => false end)
+          (started s).
 
 Definition internal_events_skip (auto_app : bool) (skip : list nat) (s : state) : list event :=
   [WatchLoop; WatchStep] ++ (if auto_app then [AppRecv] else [WatchSeeDone]) ++
-  flat_map (fun c => (if existsb (Nat.eqb c) skip then [] else [WireWrite c]) ++
-                     [Register c; SendFail c; WakeResp c; WakeDone c; WakeCtx c; Unregister c; CloseFinish c]) (started s)
+  flat_map (fun c => (if existsb (Nat.eqb c) skip then [] else [WireWrite c; SendFail c]) ++
+                     [Register c; WakeResp c; WakeDone c; WakeCtx c; Unregister c; CloseFinish c]) (started s)
   ++ [KaNext; KaSeeDone].
 
 Definition cand := (state * list event)%type.
@@ -625,7 +631,11 @@ Definition cand := (state * list event)%type.
 Definition alt_step (v : variant) (s : state) (tr : list event) (evs : list event) : list cand :=
   match first_enabled v s evs with Some (e, s') => [(s', tr ++ [e])] | None => [] end.
 
-Fixpoint settle_nd (v : variant) (auto_app : bool) (fuel : nat) (skip : list nat) (p : cand) : list cand :=
+(* [lazy]: the wait is an intermediate one inside a forced group (the next forced
+   event is not yet enabled): further events of the same group may still bring
+   competitors, so every hand-over to the transport may be left for the wait
+   that ends the group. *)
+Fixpoint settle_nd (v : variant) (auto_app : bool) (lazy : bool) (fuel : nat) (skip : list nat) (p : cand) : list cand :=
   match fuel with
   | O => []
   | S f =>
@@ -633,14 +643,14 @@ Fixpoint settle_nd (v : variant) (auto_app : bool) (fuel : nat) (skip : list nat
     match first_enabled v s (internal_events_skip auto_app skip s) with
     | None => [p]
     | Some (e, s') =>
-      settle_nd v auto_app f skip (s', tr ++ [e]) ++
+      settle_nd v auto_app lazy f skip (s', tr ++ [e]) ++
       match e with
       | WakeResp c =>
-        if racing s c then flat_map (settle_nd v auto_app f skip) (alt_step v s tr [WakeDone c; WakeCtx c]) else []
-      | WireWrite c =>
-        if write_open s c then settle_nd v auto_app f (c :: skip) p else []
+        if racing s c then flat_map (settle_nd v auto_app lazy f skip) (alt_step v s tr [WakeDone c; WakeCtx c]) else []
+      | WireWrite c | SendFail c =>     (* (a Send that fails may find that out only once it has the transport) *)
+        if lazy || write_open v s c then settle_nd v auto_app lazy f (c :: skip) p else []
       | AppRecv =>
-        if done s then flat_map (settle_nd v auto_app f skip) (alt_step v s tr [WatchSeeDone]) else []
+        if done s then flat_map (settle_nd v auto_app lazy f skip) (alt_step v s tr [WatchSeeDone]) else []
       | _ => []
       end
     end
@@ -648,7 +658,7 @@ Fixpoint settle_nd (v : variant) (auto_app : bool) (fuel : nat) (skip : list nat
 
 Fixpoint run_group_nd (v : variant) (auto_app : bool) (evs : list event) (p : cand) : list cand :=
   match evs with
-  | [] => settle_nd v auto_app settle_fuel [] p
+  | [] => settle_nd v auto_app false settle_fuel [] p
   | e :: r =>
     match step v (fst p) e with
     | Some s1 => run_group_nd v auto_app r (s1, snd p ++ [e])
@@ -656,9 +666,50 @@ Fixpoint run_group_nd (v : variant) (auto_app : bool) (evs : list event) (p : ca
       flat_map (fun p2 => match step v (fst p2) e with
                           | Some s3 => run_group_nd v auto_app r (s3, snd p2 ++ [e])
                           | None => []
-                          end) (settle_nd v auto_app settle_fuel [] p)
+                          end) (settle_nd v auto_app true settle_fuel [] p)
     end
   end.
+
+(* Different resolutions often meet in the same state; candidates are compared
+   on everything [step] reads except the pending table (which the callers'
+   program counters determine) and one of each kind is kept.  Dropping a
+   candidate can only make [sched_admits] false, never true. *)
+Definition beq_opt_pdu (a b : option pdu) : bool :=
+  match a, b with Some x, Some y => beq_pdu x y | None, None => true | _, _ => false end.
+Definition beq_cpc (a b : cpc) : bool :=
+  match a, b with
+  | PNone, PNone | PStarted, PStarted | PRegistered, PRegistered | PWriting, PWriting
+  | PWritten, PWritten | PWaiting, PWaiting => true
+  | PLeaving x, PLeaving y | PClosing x, PClosing y | PReturned x, PReturned y => beq_result x y
+  | _, _ => false
+  end.
+Definition beq_wpc (a b : wpc_t) : bool :=
+  match a, b with
+  | WTop, WTop | WReading, WReading | WStuck, WStuck | WExited, WExited | WPanicked, WPanicked => true
+  | WSending p, WSending q => beq_pdu p q
+  | _, _ => false
+  end.
+Definition beq_kpc (a b : kpc) : bool :=
+  match a, b with
+  | KOff, KOff | KReady, KReady | KNeedClose, KNeedClose | KWaitTick, KWaitTick | KExited, KExited => true
+  | KInPing c, KInPing d | KInClose c, KInClose d => Nat.eqb c d
+  | _, _ => false
+  end.
+Definition wire_ids (s : state) : list Z :=
+  map (fun w => match w with WCall c _ => Z.of_nat c | WNack q => (-1 - Z.abs q)%Z end) (wire s).
+Definition same_state (a b : state) : bool :=
+  beq_list Nat.eqb (started a) (started b) &&
+  forallb (fun c => beq_cpc (c_pc (callers a c)) (c_pc (callers b c)) &&
+                    beq_opt_pdu (c_mail (callers a c)) (c_mail (callers b c)) &&
+                    Bool.eqb (c_ctx (callers a c)) (c_ctx (callers b c))) (started a) &&
+  beq_list Z.eqb (wire_ids a) (wire_ids b) &&
+  (N.of_nat (List.length (inbound a)) =? N.of_nat (List.length (inbound b))) &&
+  beq_list beq_pdu (app a) (app b) && beq_wpc (wpc a) (wpc b) && Bool.eqb (done a) (done b) &&
+  Bool.eqb (in_end a) (in_end b) && Bool.eqb (queue_closed a) (queue_closed b) &&
+  Bool.eqb (transport_closed a) (transport_closed b) && beq_kpc (ka a) (ka b) &&
+  Bool.eqb (ticker_stopped a) (ticker_stopped b).
+Definition dedup (cs : list cand) : list cand :=
+  fold_left (fun acc p => if existsb (fun q => same_state (fst q) (fst p)) acc then acc else acc ++ [p]) cs [].
 
 (* candidates that showed every snapshot the harness took *)
 Fixpoint run_sched_nd (v : variant) (auto_app : bool) (gs : list (list event)) (snaps : list snap) (cs : list cand) : list cand :=
@@ -666,14 +717,14 @@ Fixpoint run_sched_nd (v : variant) (auto_app : bool) (gs : list (list event)) (
   | [], [] => cs
   | g :: gr, sn :: sr =>
     run_sched_nd v auto_app gr sr
-      (filter (fun p => beq_snap (snapshot (fst p)) sn) (flat_map (run_group_nd v auto_app g) cs))
+      (dedup (filter (fun p => beq_snap (snapshot (fst p)) sn) (flat_map (run_group_nd v auto_app g) cs)))
   | _, _ => []
   end.
 
 (* the run of the model that shows the snapshots and the final observation, if there is one *)
 Definition sched_nd (v : variant) (auto_app : bool) (gs : list (list event)) (snaps : list snap) (final : obs) : option cand :=
   find (fun p => beq_obs (observe (fst p)) final)
-       (run_sched_nd v auto_app gs snaps (settle_nd v auto_app settle_fuel [] (init, []))).
+       (run_sched_nd v auto_app gs snaps (settle_nd v auto_app false settle_fuel [] (init, []))).
 
 (* the generated cases: what the implementation showed after every forced event
    and at the end is what ONE of the runs the model admits for these forced events shows *)
